@@ -221,6 +221,22 @@ def run(ctx):
     add(dist, y, k)
     ctx.hist('stream', 'near_ties')
     k += 1
+  # very large distances (multiples of 2^57, beyond the range where d + 1 != d): rejecting every pair must remain realisable
+  for _ in range(120 if thorough else 30):
+    n = int(rng.integers(2, 9))
+    dist = rng.integers(1, 6, size=n).astype(float) * 2.0 ** 57
+    y = np.where(rng.random(n) < 0.4, 1, -1)
+    y[0], y[1] = 1, -1
+    if _ % 3 == 0:
+      y[np.argmin(dist)] = -1          # the closest pair is dissimilar: rejecting all is often the optimum
+    if not (np.any(y == 1) and np.any(y == -1)):
+      y[int(np.argmax(dist))] = 1
+      y[int(np.argmin(dist))] = -1
+    if not (np.any(y == 1) and np.any(y == -1)):
+      continue
+    add(dist, y, k)
+    ctx.hist('stream', 'huge_distances')
+    k += 1
   ctx.sample(dict(dist=recs[0]['dist'].tolist(), y=recs[0]['y'].tolist(), strategy=recs[0]['strategy'], impl_threshold=recs[0]['thr']))
   ctx.sample(dict(dist=recs[-1]['dist'].tolist(), y=recs[-1]['y'].tolist(), strategy=recs[-1]['strategy'],
                   params=recs[-1]['params'], impl_threshold=recs[-1]['thr']))
